@@ -66,3 +66,11 @@ impl<E> FromSync<E> {
         &self.remote
     }
 }
+
+/// Verification hooks: re-exports of crate-private items for the external verification harness.
+/// Compiled only with `--cfg p2panda_p2panda_verif`.
+#[cfg(p2panda_p2panda_verif)]
+#[doc(hidden)]
+pub mod verif {
+    pub use crate::dedup::DeduplicationBuffer;
+}
